@@ -92,7 +92,10 @@ claim(
     "PARTIAL. Theorem `noAlloc_sound`: a program passing the syntactic certificate `noAlloc` cannot allocate, reallocate, free or "
     "resize any block, for all states; the certificate is checked on the compute kernel of every enumerated problem (so 'compute "
     "never reallocates' holds for all inputs of each certified kernel). assemble;compute vs evaluate, structure preservation and "
-    "re-computation with re-valued inputs are executed on the Lean machine for capacities 1,2,3,default.",
+    "re-computation with re-valued inputs are executed on the Lean machine for capacities 1,2,3,default. Universal over the "
+    "ported lowering pass: `generateIr_compute_noAlloc` and `generateIr_compute_structure_untouched(_peep)` - the (optimised) compute "
+    "kernel of EVERY problem neither allocates nor stores into a pos/crd array or a tensor struct; the same certificates are "
+    "evaluated on the IR the real compiler emitted.",
     "Lean 4 frame theorem + per-kernel certificate + histories executed on the Lean IR machine",
     "DESIGN.md section 6 C04", MACHINE,
 )
@@ -102,7 +105,9 @@ claim(
     "unchanged, the heap only grows, dead blocks stay dead, more fuel never changes a run. The machine's semantics is the monitor "
     "(initialised in-bounds loads from live blocks, stores only into non-input blocks in bounds, int32-checked arithmetic, fuel): "
     "every emitted kernel (3 kinds) of the enumeration runs on it at capacities 1,2,3,default and must return 0 with live, "
-    "long-enough arrays.",
+    "long-enough arrays. Universal over the ported lowering pass: store-target theorems (`generateIr_store_targets_best/_peep`: every "
+    "kernel stores only into locals and arrays of the output tensor) and Hoare lemmas for the growth fragments on the machine "
+    "(`writeCrdAssembly_safe`, `writePosAllocation_*_safe`, `append_from_init_safe`: growth precedes every append from any initial capacity).",
     "Lean 4 frame theorems + monitored execution of every emitted kernel on the Lean IR machine",
     "DESIGN.md section 6 C05", MACHINE + " Allocation-size arithmetic >= 2^29 elements (F9) is not replayed.",
 )
@@ -173,9 +178,11 @@ claim(
     "exactly that tree), `parseExpr_sound`/`parseExpr_complete`/`derives_unique` (the parser builds exactly the trees of the textbook "
     "grammar E -> E+T | E-T | T, T -> T*F | F, F -> tensor | number | (E): * binds tighter, equal precedence associates left, "
     "parentheses override), `validate_none_iff` (rejected exactly when the target recurs, a tensor has two orders, or a name is both "
-    "tensor and index), `format_roundtrip`, `parseFormat_ok_perm`; parsing is a total function by construction. The Lean lexer/parser/"
-    "printer are compared with parse_assignment / deparse / parse_format / parse_named_format on grammar sentences, mutations, raw text "
-    "(tabs, newlines, non-ASCII digits), a name-collision validation stream and all short format strings.",
+    "tensor and index), `format_roundtrip`, `parseFormat_ok_perm`; for the second printer deparse_to_taco: `tacoToks_regroup`, "
+    "`parse_deparseTaco`, `denote_tacoRegroup` (its text, read with the conventional grammar, is the left-regrouped tree, which has "
+    "exactly the same sum of products; finding F14 fixed); parsing is a total function by construction. The Lean lexer/parser/"
+    "printers are compared with parse_assignment / deparse / deparse_to_taco / parse_format / parse_named_format on grammar sentences, "
+    "mutations, raw text (tabs, newlines, non-ASCII digits), a name-collision validation stream and all short format strings.",
     "Lean 4 round-trip + grammar soundness/completeness proofs on the ported lexer/parser/printer + exact correspondence with the parsita parser",
     "DESIGN.md section 6 C12",
     "int()/float()/str() of CPython convert literal lexemes (the model keeps lexemes); parsita's PEG semantics are modelled (lexer + recursive descent), tied by the correspondence.",
@@ -187,7 +194,10 @@ claim(
     "run): `cprint_tokens` (the printed string is the rendering of a token list), `cprint_parse` (for every Layered expression the "
     "tokens parse, under ISO C precedence, to `leftAssoc e`), `cprint_parse_exact` (Layered and LeftNested: to exactly `e`), "
     "`cparse_sound` (w.r.t. the textbook C grammar), witnesses that right-nested chains are re-associated (finding F10) and that "
-    "ill-layered trees misparse. Certificates Layered/LeftNested/hoistConsistent are evaluated on every emitted kernel. Three-way "
+    "ill-layered trees misparse; `scoped_eq_flat` (block-scoped C declarations vs the LLVM back end's hoisted function-level slots: for "
+    "every function, state and fuel the two semantics give the same outcome whenever the certificates `scopeOK` and `hoistConsistent` "
+    "hold, each clause shown necessary by a closed witness). Certificates Layered/LeftNested/hoistConsistent/scopeOK are evaluated on "
+    "every emitted kernel; the printer correspondence covers expressions, typed statement trees and whole modules. Three-way "
     "runs: gcc (cffi), LLVM MCJIT and the Lean IR machine (Lean Float) must give bit-identical arrays on general finite doubles.",
     "Lean 4 print/parse theorem for the ported C printer + per-kernel certificates + bit-identity runs of C, LLVM and the IR machine",
     "DESIGN.md section 6 C06",
@@ -200,7 +210,8 @@ claim(
     "itself: `COMPILE` reproduces the emitted IR tree). All these Lean functions are total (accepted by the termination checker): the "
     "model cannot hang. Theorems: the diagonal refusal happens only for a repeated index and never otherwise "
     "(`bestAlgorithm_diagonal_only_if`, `bestAlgorithm_no_diagonal`), every candidate graph is well scoped and shadow-free, and denotes "
-    "the assignment (`toIterationGraphs_denote_source`). On the real code every request must return code or a documented typed error "
+    "the assignment (`toIterationGraphs_denote_source`), `lowerable` is sound for the ported lowering pass and exact under two "
+    "graph conditions evaluated each run (`generateIr_ok_of_lowerable`, `lowerable_iff_generateIr_ok`). On the real code every request must return code or a documented typed error "
     "within a wall limit; emitted C is compiled with gcc -fsyntax-only, emitted LLVM is verified; the CLI must exit 0/1 without traceback.",
     "Total Lean ports of the compiler stages with exact correspondence + refusal-classification theorems + toolchain acceptance runs",
     "DESIGN.md section 6 C08",
